@@ -212,6 +212,30 @@ func (p *PDU) RespReadBits() ([]bool, error) {
 	return ret, nil
 }
 
+// respReadBitsCount reads count coils or discrete inputs from a
+// response PDU.
+func (p *PDU) respReadBitsCount(count int) ([]bool, error) {
+	switch p.FunctionCode {
+	case FuncCodeReadCoils, FuncCodeReadDiscreteInputs:
+		// ok
+	default:
+		return []bool{}, errors.New("invalid function code to read bits")
+	}
+
+	if len(p.Data) < 1 || int(p.Data[0]) != (count+7)/8 ||
+		len(p.Data) < 1+int(p.Data[0]) {
+		return []bool{}, errors.New("RespReadBits not enough data")
+	}
+
+	ret := make([]bool, count)
+
+	for i := range ret {
+		ret[i] = ((p.Data[1+i/8] >> (i % 8)) & 0x1) == 0x1
+	}
+
+	return ret, nil
+}
+
 // RespReadRegs reads register values from a
 // response PDU.
 func (p *PDU) RespReadRegs() ([]uint16, error) {
